@@ -215,7 +215,7 @@ def report(prop, args, results, known, seed, wall, all_ids):
                    native_results=v.get('native_results'), native_trace=v.get('native_trace'),
                    symbolic_trace=v.get('trace'),
                    functions={k: f for k, f in r['functions'].items()},
-                   confirmed_on_real_code=bool(v.get('confirmed')), desc=r.get('desc'))
+                   confirmed_on_real_code=bool(v.get('confirmed')), desc=r.get('desc'), seed=seed, tier=args.tier)
         json.dump(doc, open(os.path.join(ROOT, rp), 'w'), indent=1, sort_keys=True, default=repr)
         tail = '' if v.get('confirmed') else ' no-failing-input-found'
         vlines.append("VIOLATION property=%s replay=%s%s" % (prop, rp, tail))
@@ -248,6 +248,9 @@ def report(prop, args, results, known, seed, wall, all_ids):
             functions_under_contract=sorted(functions.values(), key=lambda f: f['function']),
             back_end=backends, solver_time_s=round(solver_s, 3), symbolic_paths=paths,
             crosschecked_paths_on_cpython=xchecks,
+            path_isolation=("every path and every native replay in a forked child of the worker process"
+                            if all(r.get('isolated_paths', True) for r in results if r.get('kind') != 'finite')
+                            else "off (PYVC_ISOLATE=0): paths of an obligation shared one process"),
             samples=samples, finite_lemmas=finite, bounded=bounded,
             undecided=undecided[:50], crashes=crashes[:20],
             known_findings_open=[k for k in known],
@@ -285,6 +288,8 @@ def do_replay(path):
     load_contracts(prop)
     ob = oblig.REGISTRY[doc['obligation']]
     choices = [tuple(c) for c in (doc.get('choices') or [])]
+    oblig.Ctx.thorough = doc.get('tier') == 'thorough'
+    oblig.Ctx.seed = doc.get('seed') or 0
     res, trace, err, hits = oblig.replay_concrete(ob, doc.get('values') or {}, choices)
     print("replay of %s#%s with inputs %s" % (doc['obligation'], doc['clause'], json.dumps(doc.get('values'))))
     failed = False
